@@ -20,7 +20,7 @@ func init() {
 			"(X-gen) every field of every module GenesisState is consumed by InitGenesis and produced by ExportGenesis, and InitGenesis does not overwrite a field of the state it was given; (X-mem) every write to in-memory keeper state is wiring, a rebuild from the store, or a self-validating cache — anything else is consensus-relevant state outside the store.",
 		NotCovered:  []string{"bit-identical app hash (needs two executions)", "losslessness of exported values beyond field coverage", "nondeterminism inside dependencies (SDK, wasmvm)"},
 		Assumptions: []string{"scope by package class rather than reachability (conservative)", "telemetry calls do not influence state"},
-		MinObl:      180,
+		MinObl:      184,
 		Run:         runC19,
 	})
 }
@@ -134,21 +134,7 @@ func runC19(c *rules.Ctx) {
 		c.Record("X-mem", s.Func, role, "in-memory keeper state may be written only by wiring, by a rebuild from the store, or by a self-validating cache"+map[bool]string{true: " — " + why, false: ""}[ok], ok, orStr(map[bool]string{true: "accepted", false: "consensus-relevant in-memory state written during execution"}[ok], ""), rel(s.Pos))
 	}
 	// side conditions of the pool-module cache exemption: a hit costs exactly the gas of the read it replaces
-	const PM = "x/poolmanager.Keeper."
-	c.Let("CV", "assert:poolModuleCacheValue(sync.Map.Load(k.cachedPoolModules,poolId)#0)#0")
-	for _, fn := range []string{"GetPoolType", "GetPoolModule"} {
-		c.HasCall(PM+fn, "osmoutils.ChargeMockReadGas|poolmanager.Keeper.getPoolRouteRaw|osmoutils.TrackGasUsedInGet", nil, true, "every successful lookup either reads the route from the store or charges the recorded gas of that read (a node with a warm cache and one with a cold cache consume the same gas)", "gas")
-		c.CallArg(PM+fn, "osmoutils.ChargeMockReadGas", 1, "{CV}.gasFlat", "the gas charged on a hit is the recorded flat cost")
-		c.CallArg(PM+fn, "osmoutils.ChargeMockReadGas", 2, "{CV}.gasKey", "…the recorded key cost")
-		c.CallArg(PM+fn, "osmoutils.ChargeMockReadGas", 3, "{CV}.gasValue", "…and the recorded value cost")
-	}
-	c.Let("TRK", "osmoutils.TrackGasUsedInGet(sdk.Context.KVStore(ctx,k.storeKey),poolmanagertypes.FormatModuleRouteKey(poolId),_)")
-	c.StoreField(PM+"GetPoolModule", "gasFlat", "{TRK}#1", "the cache records the flat gas of the store read it replaces")
-	c.StoreField(PM+"GetPoolModule", "gasKey", "{TRK}#2", "…its key gas")
-	c.StoreField(PM+"GetPoolModule", "gasValue", "{TRK}#3", "…and its value gas")
-	c.OnlyWhen(PM+"GetPoolModule", "sync.Map.Store", "eq(sdk.Context.ExecMode(ctx),7)", "the cache is filled only while finalising a block")
-	c.HasCall(PM+"SetPoolRoute", "sync.Map.Delete", []string{"k.cachedPoolModules", "poolId"}, true, "rewriting a route invalidates its cache entry", "")
-	c.WhoMayCall("x/poolmanager/types.FormatModuleRouteKey", []string{"poolmanager.Keeper.getPoolRouteRaw", "poolmanager.Keeper.SetPoolRoute", "poolmanager.Keeper.GetPoolModule"}, "the route key is touched only by the cached reader, the raw reader and the invalidating writer")
+	poolModuleCacheRules(c)
 	// genesis rebuild of the lockup accumulation uses the same bucket keys as the running chain
 	lockupGenesisAccumulationRules(c)
 	// poolmanager import: parameters first — writing a denom-pair taker fee consults the default taker fee of the params
